@@ -582,6 +582,103 @@ example : (runEvents [] [.waiter 1 [⟨7, [none]⟩], .waiter 2 [⟨7, [none]⟩
     [[.resolved 2 ⟨7, [some 5]⟩], [], [], []] := by decide
 example : (regIds [.waiter 1 [⟨7, [none]⟩], .waiter 2 [⟨7, [none]⟩], .cancel 1, .receive ⟨7, [some 5]⟩]).Nodup := by decide
 
+/-! ## the request machine's waiters are this table
+
+    The request machine (`Host.lean`, properties C11 / C13 / C14 / C20) keeps the waiters of running requests as a list of
+    `(request id, command)` pairs, resolves a response by `find?` on the command and drops the waiter by `filter` on the id.
+    Every request waits with the all-wildcard pattern of its response class (`Rsp(partial=True)`), so that list is the
+    listener table below; the two theorems say that the request machine's two list operations are exactly what `dispatch`
+    and the deferred removal do on it - the abstraction used by the concurrency theorems is a refinement of this model. -/
+
+def requestTable (ls : List (Nat × Nat)) : Table := ls.map fun l => ⟨l.1, .oneShot, [⟨l.2, []⟩], false⟩
+
+theorem dispatch_requestTable_osm (c : Cmd) (ls : List (Nat × Nat)) : dispatch c (requestTable ls) true = (requestTable ls, []) := by
+  induction ls with
+  | nil => simp [requestTable, dispatch]
+  | cons l rest ih =>
+    have ih' : dispatch c (List.map (fun l : Nat × Nat => (⟨l.1, .oneShot, [⟨l.2, []⟩], false⟩ : Listener)) rest) true =
+        (List.map (fun l : Nat × Nat => (⟨l.1, .oneShot, [⟨l.2, []⟩], false⟩ : Listener)) rest, []) := ih
+    simp only [requestTable, List.map_cons]
+    rw [dispatch]
+    split
+    · rw [ih']
+    · simp only [Bool.true_and, beq_self_eq_true, if_true]; rw [ih']
+
+/-- **who is resolved**: on the table of request waiters a received response resolves exactly the waiter the request
+    machine picks - the first one registered for that command - and nobody if there is none -/
+theorem C12_request_waiters (ls : List (Nat × Nat)) (key : Nat) (ps : List (Option Nat)) :
+    resolvedOf (dispatch ⟨key, ps⟩ (requestTable ls) false).2 = ((ls.find? fun l => l.2 == key).map (·.1)).toList := by
+  induction ls with
+  | nil => simp [requestTable, dispatch, resolvedOf]
+  | cons l rest ih =>
+    have ih' : resolvedOf (dispatch ⟨key, ps⟩ (List.map (fun l : Nat × Nat => (⟨l.1, .oneShot, [⟨l.2, []⟩], false⟩ : Listener)) rest) false).2 =
+        ((rest.find? fun l => l.2 == key).map (·.1)).toList := ih
+    simp only [requestTable, List.map_cons]
+    by_cases hk : l.2 = key
+    · have hu : underHeader (⟨l.1, .oneShot, [⟨l.2, []⟩], false⟩ : Listener) ⟨key, ps⟩ = true := by simp [underHeader, hk]
+      have hm : anyMatch [(⟨l.2, []⟩ : Cmd)] ⟨key, ps⟩ = true := by simp [anyMatch, «matches», agree, hk]
+      rw [dispatch]
+      simp only [hu, hm, Bool.not_true, Bool.false_and, Bool.false_eq_true, if_false]
+      have := dispatch_requestTable_osm ⟨key, ps⟩ rest
+      simp only [requestTable] at this
+      rw [this]
+      simp [resolvedOf, List.find?_cons, hk]
+    · have hu : underHeader (⟨l.1, .oneShot, [⟨l.2, []⟩], false⟩ : Listener) ⟨key, ps⟩ = false := by simp [underHeader, hk]
+      rw [dispatch]
+      simp only [hu, Bool.not_false, if_true]
+      rw [ih']
+      simp [List.find?_cons, hk]
+
+/-- **what is left**: after the dispatch and the deferred removal of finished waiters the table is the request machine's
+    list with the resolved request's waiter filtered out (request ids are pairwise distinct) -/
+theorem C12_request_waiters_table (ls : List (Nat × Nat)) (key : Nat) (ps : List (Option Nat)) (hn : (ls.map (·.1)).Nodup) :
+    ((dispatch ⟨key, ps⟩ (requestTable ls) false).1.filter fun l => !l.done) =
+      match ls.find? fun l => l.2 == key with
+      | none => requestTable ls
+      | some (i, _) => requestTable (ls.filter (·.1 != i)) := by
+  induction ls with
+  | nil => simp [requestTable, dispatch]
+  | cons l rest ih =>
+    simp only [List.map_cons, List.nodup_cons] at hn
+    have ih' := ih hn.2
+    simp only [requestTable] at ih'
+    simp only [requestTable, List.map_cons]
+    by_cases hk : l.2 = key
+    · have hu : underHeader (⟨l.1, .oneShot, [⟨l.2, []⟩], false⟩ : Listener) ⟨key, ps⟩ = true := by simp [underHeader, hk]
+      have hm : anyMatch [(⟨l.2, []⟩ : Cmd)] ⟨key, ps⟩ = true := by simp [anyMatch, «matches», agree, hk]
+      rw [dispatch]
+      simp only [hu, hm, Bool.not_true, Bool.false_and, Bool.false_eq_true, if_false]
+      have := dispatch_requestTable_osm ⟨key, ps⟩ rest
+      simp only [requestTable] at this
+      rw [this]
+      have hrest : rest.filter (fun x => x.1 != l.1) = rest := by
+        apply List.filter_eq_self.mpr
+        intro a ha
+        have : a.1 ≠ l.1 := fun h => hn.1 (List.mem_map.mpr ⟨a, ha, h⟩)
+        simpa using this
+      have hall : (List.map (fun l : Nat × Nat => (⟨l.1, .oneShot, [⟨l.2, []⟩], false⟩ : Listener)) rest).filter (fun l => !l.done) =
+          List.map (fun l : Nat × Nat => (⟨l.1, .oneShot, [⟨l.2, []⟩], false⟩ : Listener)) rest := by
+        apply List.filter_eq_self.mpr
+        intro a ha
+        obtain ⟨x, _, rfl⟩ := List.mem_map.mp ha
+        rfl
+      simp [List.find?_cons, hk, List.filter_cons, hrest, hall]
+    · have hu : underHeader (⟨l.1, .oneShot, [⟨l.2, []⟩], false⟩ : Listener) ⟨key, ps⟩ = false := by simp [underHeader, hk]
+      rw [dispatch]
+      simp only [hu, Bool.not_false, if_true, List.filter_cons, Bool.not_false]
+      rw [ih']
+      have hkb : (l.2 == key) = false := by simp [hk]
+      simp only [List.find?_cons, hkb]
+      cases hf : rest.find? (fun l => l.2 == key) with
+      | none => rfl
+      | some p =>
+        obtain ⟨i, k⟩ := p
+        have hmem : (i, k) ∈ rest := List.mem_of_find?_eq_some hf
+        have hne : l.1 ≠ i := fun h => hn.1 (List.mem_map.mpr ⟨(i, k), hmem, h.symm⟩)
+        simp [List.filter_cons, hne]
+
+example : resolvedOf (dispatch ⟨7, [some 5]⟩ (requestTable [(1, 8), (2, 7), (3, 7)]) false).2 = [2] := by decide
+
 /-! ## non-vacuity: two waiters for the same command, a callback, a waiter for another command;
     two identical responses in one event-loop step go to the two waiters in order -/
 example : (runEvents [] [.waiter 1 [⟨7, [none]⟩], .waiter 2 [⟨7, [some 5]⟩], .callback 3 [⟨7, [none]⟩],
